@@ -53,6 +53,31 @@ def sync(repo):
     # docs/spec/*.yaml are include_str!'d by the crate; they are part of the copy (docs is not excluded)
 
 
+_STAMPS = "/var/tmp/ilverif/inject_stamps.json"
+
+
+def write_stable(path, data):
+    """Write an injected file; if its content is byte-identical to what an earlier run wrote at this path, give it
+    the same mtime again, so that cargo's mtime-based freshness check sees an unchanged file (identical content
+    => identical mtime; any change of content => a new mtime)."""
+    import hashlib
+    h = hashlib.sha256(data).hexdigest()
+    try:
+        with open(_STAMPS) as f:
+            stamps = json.load(f)
+    except Exception:  # noqa
+        stamps = {}
+    with open(path, "wb") as f:
+        f.write(data)
+    rec = stamps.get(path)
+    if rec and rec[0] == h:
+        os.utime(path, (rec[1], rec[1]))
+    else:
+        stamps[path] = [h, os.stat(path).st_mtime]
+        with open(_STAMPS, "w") as f:
+            json.dump(stamps, f)
+
+
 def inject(units, root, repo):
     """append `mod` lines (insert-only) and verify that removing them gives back /repo's bytes"""
     notes = []
@@ -62,8 +87,7 @@ def inject(units, root, repo):
         with open(p, "rb") as f:
             orig = f.read()
         add = ("\n#[cfg(any(kani, test))]\n#[path = \"%s/kani/%s.rs\"]\nmod verif_kani_%s;\n" % (root, u, u)).encode()
-        with open(p, "wb") as f:
-            f.write(orig + add)
+        write_stable(p, orig + add)
         with open(os.path.join(repo, rel), "rb") as f:
             if f.read() != orig:
                 raise RuntimeError("scratch copy of %s differs from /repo" % rel)
